@@ -129,6 +129,9 @@ def _call_counts(prog):
 def _inlinable(prog, caller, c):
     if c is None or c.id == caller.id or c.kind == 'closure' or c.crate != caller.crate:
         return False
+    # "extract function" puts the helper next to its caller; a function of another file is an interface of that module
+    if c.file != caller.file:
+        return False
     # a function with many callers plays a role of its own (`recheck`, `peek`, a grammar production): rules name it
     if getattr(prog, 'call_counts', {}).get(c.id, 0) > MAX_CALL_SITES:
         return False
